@@ -11,11 +11,15 @@
      P8   Results: corollaries, refusals, refutations of the unguarded statements, non-vacuity
      P9   Poly: division-free trees are defined in every differential field (no hypothesis); lower_sound_poly
    Main results (restated in Props/C01.v):
-     per-table lemmas  *_correct        generated table = classical definition on the generic argument
+     per-table lemmas  *_correct        generated table = classical definition on the generic argument (all arms,
+                                        including the matrix arms of Dot since the repair 1e0454e)
      lower_sound_partial                lower = Some t -> gden = Some r -> t and r are entry-wise equal in every
-                                        differential field (guard [regular]: the two confirmed defects excluded)
-     lower_sound_poly                   the same without any definedness hypothesis on division-free trees
-     lower_shape_partial / lower_total_partial, explicit refusal lemmas, refutations of the unguarded statements. *)
+                                        differential field, d = 1..3 (guard [regular] = what is classically modelled)
+     lower_sound_supported              the same on the whole supported fragment, d = 2, 3 (supported_regular)
+     lower_sound_poly                   no definedness hypothesis on division-free trees
+     lower_total / lower_shape          d = 2, 3, the whole supported fragment (full strength since 14cf28b, 1e0454e)
+     lower_total_1d_refuted             1-D totality is false (known finding), explicit refusal lemmas,
+     repaired_witnesses                 the former defect witnesses now lower to the classical value. *)
 From Coq Require Import Ascii String ZArith List Bool Arith Lia Field_theory Field.
 From V Require Import Core.FieldEq Core.Terminal Core.TerminalP Core.DField Core.Classical Gen.Formulas Model.LowerM.
 Import ListNotations. Open Scope string_scope.
@@ -609,16 +613,14 @@ Definition tab_ok1 (lg : bool) (o : gop1) (d : nat) : bool :=
         else true) forms) kinds
   end.
 
-(* the matrix arms of Dot are the confirmed defect: excluded here, refuted separately *)
-Definition guard2 (o : gop2) (ka kb : string) : bool :=
-  match o with ODot => negb (String.eqb ka "m" || String.eqb kb "m") | _ => true end.
-
+(* (before the repair 1e0454e the matrix arms of Dot had to be excluded here: algebra.Dot_2d/3d read a
+   matrix as a flat vector; now every arm is checked) *)
 Definition tab_ok2 (lg : bool) (o : gop2) (d : nat) : bool :=
   match class_name lg (op2_name o) d with
   | None => true
   | Some name =>
       forallb (fun ka => forallb (fun kb => forallb (fun fa => forallb (fun fb =>
-        if compat d ka fa && compat d kb fb && guard2 o ka kb then
+        if compat d ka fa && compat d kb fb then
           match table_of name (ka ++ kb) with
           | Some (GenOk T) =>
               match cl2 lg o d (wrap fa d (gen_flat false ka d)) (wrap fb d (gen_flat true kb d)) with
@@ -673,6 +675,7 @@ Lemma dot_2d_correct : tab_ok2 false ODot 2 = true /\ tab_ok2 true ODot 2 = true
 Lemma dot_3d_correct : tab_ok2 false ODot 3 = true /\ tab_ok2 true ODot 3 = true. Proof. split; vm_compute; reflexivity. Qed.
 Lemma cross_2d_correct : tab_ok2 false OCross 2 = true /\ tab_ok2 true OCross 2 = true. Proof. split; vm_compute; reflexivity. Qed.
 Lemma cross_3d_correct : tab_ok2 false OCross 3 = true /\ tab_ok2 true OCross 3 = true. Proof. split; vm_compute; reflexivity. Qed.
+Lemma inner_1d_correct : tab_ok2 false OInner 1 = true /\ tab_ok2 true OInner 1 = true. Proof. split; vm_compute; reflexivity. Qed.
 Lemma inner_2d_correct : tab_ok2 false OInner 2 = true /\ tab_ok2 true OInner 2 = true. Proof. split; vm_compute; reflexivity. Qed.
 Lemma inner_3d_correct : tab_ok2 false OInner 3 = true /\ tab_ok2 true OInner 3 = true. Proof. split; vm_compute; reflexivity. Qed.
 
@@ -993,17 +996,15 @@ Section Apply.
   (* -------------------------------------------------------------------- binary operators *)
   Theorem apply2_sound lg o d ta tb ra rb t r :
     1 <= d <= 3 -> tab_ok2 lg o d = true ->
-    (forall ka kb, kind_of d ta = Some ka -> kind_of d tb = Some kb -> guard2 o ka kb = true) ->
     tens_eq ta ra -> tens_eq tb rb -> tdfd ta -> tdfd tb -> tdfd ra -> tdfd rb ->
     apply2 lg o d ta tb = Some t -> cl2 lg o d ra rb = Some r -> tens_eq t r.
   Proof.
-    intros Hd Hok Hg Hea Heb Hdta Hdtb Hdra Hdrb Ha Hc.
+    intros Hd Hok Hea Heb Hdta Hdtb Hdra Hdrb Ha Hc.
     unfold apply2 in Ha.
     destruct (class_name lg (op2_name o) d) as [name|] eqn:En; [|discriminate].
     destruct (kind_of d ta) as [ka|] eqn:Eka; [|discriminate].
     destruct (kind_of d tb) as [kb|] eqn:Ekb; [|discriminate].
     destruct (table_of name (ka ++ kb)) as [[T|?|?]|] eqn:Et; try discriminate.
-    specialize (Hg ka kb eq_refl eq_refl).
     apply kind_of_shape in Eka. apply kind_of_shape in Ekb.
     destruct (cl2_form _ _ _ _ _ _ Hc) as (Hfa & Hfb & Hacc).
     assert (Hca : compat d ka (form_of ra) = true) by (eapply kind_form_compat; eauto; apply Hea).
@@ -1015,7 +1016,7 @@ Section Apply.
     assert (Hina : In (form_of ra) forms) by (destruct ra; simpl; auto). specialize (Hok Hina).
     rewrite forallb_forall in Hok. specialize (Hok (form_of rb)).
     assert (Hinb : In (form_of rb) forms) by (destruct rb; simpl; auto). specialize (Hok Hinb).
-    rewrite Hca, Hcb, Hg, Et in Hok. simpl in Hok.
+    rewrite Hca, Hcb, Et in Hok. simpl in Hok.
     set (ea := env_of false ka ta) in *. set (eb := env_of true kb tb) in *.
     set (env := (ea ++ eb)%list) in *.
     set (GA := wrap (form_of ra) d (gen_flat false ka d)) in *.
@@ -1275,10 +1276,10 @@ Lemma gden_add lg d l : gden lg d (GAdd l) = match sequence (map (gden lg d) l) 
 Proof. cbn [gden]. now rewrite seq_fix. Qed.
 Lemma gden_mul lg d l : gden lg d (GMul l) = match sequence (map (gden lg d) l) with Some ts => fold1 tmul ts | None => None end.
 Proof. cbn [gden]. now rewrite seq_fix. Qed.
-Lemma regular_add lg d l : regular lg d (GAdd l) = forallb (regular lg d) l && forallb (fun x => negb (lowers_to_tuple lg d x)) l.
+Lemma regular_add lg d l : regular lg d (GAdd l) = forallb (regular lg d) l.
 Proof. cbn [regular]. now rewrite all_fix. Qed.
 Lemma regular_mul lg d l : regular lg d (GMul l) =
-  forallb (regular lg d) l && forallb (fun x => negb (lowers_to_tuple lg d x)) l && Nat.leb (length (filter (lowers_to_mat lg d) l)) 1.
+  forallb (regular lg d) l && Nat.leb (length (filter (lowers_to_mat lg d) l)) 1.
 Proof. cbn [regular]. now rewrite all_fix. Qed.
 
 (* all tables, all dimensions: closed computations against the GENERATED tables *)
@@ -1286,6 +1287,91 @@ Lemma tables_ok1 lg o d : 1 <= d <= 3 -> tab_ok1 lg o d = true.
 Proof. intros Hd. destruct (d123 d Hd) as [->|[->| ->]]; destruct lg, o; vm_compute; reflexivity. Qed.
 Lemma tables_ok2 lg o d : 1 <= d <= 3 -> tab_ok2 lg o d = true.
 Proof. intros Hd. destruct (d123 d Hd) as [->|[->| ->]]; destruct lg, o; vm_compute; reflexivity. Qed.
+
+(* since 14cf28b no class returns a Tuple any more: a lowered value of a regular tree is never a Tuple
+   (before that repair Cross_3d did, and Python's sequence arithmetic was applied to it) *)
+Lemma tables_no_tuple :
+  forallb (fun nt => forallb (fun kr => match snd kr with GenOk (Vec _) => false | _ => true end) (snd nt)) tables = true.
+Proof. vm_compute. reflexivity. Qed.
+
+Lemma assoc_In {B} k (l : list (string * B)) v : assoc k l = Some v -> In (k, v) l.
+Proof.
+  induction l as [|[k' v'] l IH]; simpl; [discriminate|]. destruct (String.eqb k k') eqn:E; intros H.
+  - apply String.eqb_eq in E. inversion H. subst. auto.
+  - auto.
+Qed.
+
+Lemma table_not_vec name k T : table_of name k = Some (GenOk T) -> not_vec T.
+Proof.
+  unfold table_of. destruct (assoc name tables) as [tab|] eqn:E1; [|discriminate]. intros E2.
+  pose proof tables_no_tuple as H. rewrite forallb_forall in H. specialize (H _ (assoc_In _ _ _ E1)). simpl in H.
+  rewrite forallb_forall in H. specialize (H _ (assoc_In _ _ _ E2)). simpl in H. destruct T; simpl; auto. discriminate.
+Qed.
+
+Lemma tens_map_not_vec f T t : tens_map f T = Some t -> not_vec T -> not_vec t.
+Proof.
+  destruct T as [x|l|M]; simpl; intros H N; try contradiction.
+  - destruct (f x); inversion H. exact I.
+  - destruct (sequence (map (fun r => sequence (map f r)) M)); inversion H. exact I.
+Qed.
+
+Lemma ladd_not_vec t1 t2 t : ladd t1 t2 = Some t -> not_vec t1 -> not_vec t2 -> not_vec t.
+Proof. intros H N1 N2. destruct (ladd_flat _ _ _ H N1 N2) as (_ & _ & _ & N). exact N. Qed.
+
+Lemma lmul_not_vec t1 t2 t : lmul t1 t2 = Some t -> not_vec t1 -> not_vec t2 -> not_vec t.
+Proof.
+  intros H N1 N2. destruct t1 as [x|l|A], t2 as [y|m|B]; cbn [not_vec] in N1, N2; try contradiction;
+    rewrite ?lmul_ss, ?lmul_sm, ?lmul_ms in H.
+  - inversion H. exact I.
+  - inversion H. exact I.
+  - inversion H. exact I.
+  - cbn [lmul] in H. destruct (Nat.eqb (snd (dims A)) (fst (dims B)) && rect A && rect B); inversion H. exact I.
+Qed.
+
+Lemma fold_not_vec (f : tensor -> tensor -> option tensor) :
+  (forall a b c, f a b = Some c -> not_vec a -> not_vec b -> not_vec c) ->
+  forall ts t, Forall not_vec ts -> fold1 f ts = Some t -> not_vec t.
+Proof.
+  intros Hf ts t HF H. destruct ts as [|x ts]; [discriminate|]. simpl in H.
+  assert (Hx : not_vec x) by (inversion HF; auto). assert (Hts : Forall not_vec ts) by (inversion HF; auto). clear HF.
+  revert x Hx H. induction Hts as [|y ts Hy Hts IH]; intros x Hx H; simpl in H.
+  - inversion H. now subst.
+  - destruct (f x y) as [z|] eqn:E.
+    + apply (IH z); auto. exact (Hf x y z E Hx Hy).
+    + exfalso. clear - H. induction ts; simpl in H; [discriminate|auto].
+Qed.
+
+Lemma lower_not_vec lg d e : regular lg d e = true -> forall t, lower lg d e = Some t -> not_vec t.
+Proof.
+  induction e as [p q|n|l i|n|n|n i|l IHl|l IHl|b x IHb IHx|f a IHa|o a IHa|o a b IHa IHb|l IHl|rr cc l IHl] using gexpr_ind';
+    intros Hr t H; try discriminate; try (cbn [lower] in H; inversion H; exact I).
+  - rewrite regular_add in Hr. rewrite lower_add in H.
+    destruct (sequence (map (lower lg d) l)) as [ts|] eqn:E; [|discriminate].
+    eapply (fold_not_vec ladd ladd_not_vec); [|exact H].
+    clear H. revert ts E. induction IHl as [|x l Hx Hl IH]; simpl in *; intros ts E.
+    + inversion E. constructor.
+    + destruct (lower lg d x) as [tx|] eqn:Ex; [|discriminate]. destruct (sequence (map (lower lg d) l)) as [ts'|]; [|discriminate].
+      inversion E. apply andb_true_iff in Hr. destruct Hr as [R1 R2]. constructor; auto.
+  - rewrite regular_mul in Hr. apply andb_true_iff in Hr. destruct Hr as [Hr _]. rewrite lower_mul in H.
+    destruct (sequence (map (lower lg d) l)) as [ts|] eqn:E; [|discriminate].
+    eapply (fold_not_vec lmul lmul_not_vec); [|exact H].
+    clear H. revert ts E. induction IHl as [|x l Hx Hl IH]; simpl in *; intros ts E.
+    + inversion E. constructor.
+    + destruct (lower lg d x) as [tx|] eqn:Ex; [|discriminate]. destruct (sequence (map (lower lg d) l)) as [ts'|]; [|discriminate].
+      inversion E. apply andb_true_iff in Hr. destruct Hr as [R1 R2]. constructor; auto.
+  - cbn [lower] in H. destruct (lower lg d b) as [tb|]; [|discriminate]. destruct (lower lg d x) as [tx|]; [|discriminate].
+    destruct tb, tx; simpl in H; try discriminate. inversion H. exact I.
+  - cbn [lower] in H. destruct (lower lg d a) as [ta|]; [|discriminate]. unfold apply1 in H.
+    destruct (class_name lg (op1_name o) d) as [name|]; [|discriminate]. destruct (kind_of d ta) as [k|]; [|discriminate].
+    destruct (table_of name k) as [[T|?|?]|] eqn:Et; try discriminate.
+    eapply tens_map_not_vec; eauto. eapply table_not_vec; eauto.
+  - cbn [lower] in H. destruct (lower lg d a) as [ta|]; [|discriminate]. destruct (lower lg d b) as [tb|]; [|discriminate].
+    unfold apply2 in H.
+    destruct (class_name lg (op2_name o) d) as [name|]; [|discriminate]. destruct (kind_of d ta) as [ka|]; [|discriminate].
+    destruct (kind_of d tb) as [kb|]; [|discriminate].
+    destruct (table_of name (ka ++ kb)) as [[T|?|?]|] eqn:Et; try discriminate.
+    eapply tens_map_not_vec; eauto. eapply table_not_vec; eauto.
+Qed.
 
 Section Sound.
   Variable S : dfield.
@@ -1337,14 +1423,14 @@ Section Sound.
   Qed.
 
   Lemma operands_not_vec lg d l ts :
-    forallb (fun x => negb (lowers_to_tuple lg d x)) l = true -> sequence (map (lower lg d) l) = Some ts -> Forall not_vec ts.
+    forallb (regular lg d) l = true -> sequence (map (lower lg d) l) = Some ts -> Forall not_vec ts.
   Proof.
     revert ts. induction l as [|x l IH]; simpl; intros ts Hr H1.
     - inversion H1. constructor.
     - destruct (lower lg d x) as [t|] eqn:E1; [|discriminate].
       destruct (sequence (map (lower lg d) l)) as [ts'|] eqn:S1; [|discriminate]. inversion H1.
       apply andb_true_iff in Hr. destruct Hr as [R1 R2]. constructor; auto.
-      unfold lowers_to_tuple in R1. rewrite E1 in R1. destruct t; simpl; auto. discriminate.
+      eapply lower_not_vec; eauto.
   Qed.
 
   Fixpoint count_mat (ts : list tensor) : nat :=
@@ -1419,7 +1505,7 @@ Section Sound.
     - simpl in Hl, Hg. destruct (Nat.ltb i d); inversion Hl; inversion Hg. now apply tens_eq_refl.
     - (* Add *)
       rewrite lower_add in Hl. rewrite gden_add in Hg. rewrite regular_add in Hreg.
-      apply andb_true_iff in Hreg. destruct Hreg as [R1 R2].
+      pose proof Hreg as R1. pose proof Hreg as R2.
       destruct Hdef as (_ & _ & Hall). apply gdef_all in Hall.
       destruct (sequence (map (lower lg d) l)) as [ts|] eqn:S1; [|discriminate].
       destruct (sequence (map (gden lg d) l)) as [rs|] eqn:S2; [|discriminate].
@@ -1429,7 +1515,7 @@ Section Sound.
       unfold fold1 in Hl, Hg. eapply fold_add; eauto.
     - (* Mul *)
       rewrite lower_mul in Hl. rewrite gden_mul in Hg. rewrite regular_mul in Hreg.
-      apply andb_true_iff in Hreg. destruct Hreg as [Hreg R3]. apply andb_true_iff in Hreg. destruct Hreg as [R1 R2].
+      apply andb_true_iff in Hreg. destruct Hreg as [R1 R3]. pose proof R1 as R2.
       destruct Hdef as (_ & _ & Hall). apply gdef_all in Hall.
       destruct (sequence (map (lower lg d) l)) as [ts|] eqn:S1; [|discriminate].
       destruct (sequence (map (gden lg d) l)) as [rs|] eqn:S2; [|discriminate].
@@ -1454,25 +1540,19 @@ Section Sound.
       + simpl. unfold ev in *. simpl. congruence.
     - (* elementary functions: outside the proved fragment *) discriminate.
     - (* unary operators *)
-      cbn [regular] in Hreg. apply andb_true_iff in Hreg. destruct Hreg as [Hreg _].
+      cbn [regular] in Hreg.
       destruct Hdef as (_ & _ & Ha). destruct (gdef_self _ _ _ Ha) as [D1 D2].
       cbn [lower gden] in Hl, Hg.
       destruct (lower lg d a) as [ta|] eqn:E1; [|discriminate]. destruct (gden lg d a) as [ra|] eqn:E2; [|discriminate].
       exact (apply1_sound S lg o d ta ra t r Hd (tables_ok1 lg o d Hd) (IHa ta ra Hreg Ha E1 E2) (D1 _ eq_refl) (D2 _ eq_refl) Hl Hg).
     - (* binary operators *)
-      cbn [regular] in Hreg. apply andb_true_iff in Hreg. destruct Hreg as [Hreg R3].
-      apply andb_true_iff in Hreg. destruct Hreg as [R1 R2].
+      cbn [regular] in Hreg. apply andb_true_iff in Hreg. destruct Hreg as [R1 R2].
       destruct Hdef as (_ & _ & Ha & Hb).
       destruct (gdef_self _ _ _ Ha) as [DA1 DA2]. destruct (gdef_self _ _ _ Hb) as [DB1 DB2].
       cbn [lower gden] in Hl, Hg.
       destruct (lower lg d a) as [ta|] eqn:E1; [|discriminate]. destruct (gden lg d a) as [ra|] eqn:E2; [|discriminate].
       destruct (lower lg d b) as [tb|] eqn:E3; [|discriminate]. destruct (gden lg d b) as [rb|] eqn:E4; [|discriminate].
-      assert (HG : forall ka kb, kind_of d ta = Some ka -> kind_of d tb = Some kb -> guard2 o ka kb = true).
-      { intros ka kb Ka Kb. destruct o; try reflexivity. simpl.
-        unfold lowered_kind in R3. rewrite E1, E3, Ka, Kb in R3.
-        apply andb_true_iff in R3. destruct R3 as [R3 _]. apply andb_true_iff in R3. destruct R3 as [Q1 Q2].
-        apply negb_true_iff in Q1, Q2. rewrite Q1, Q2. reflexivity. }
-      exact (apply2_sound S lg o d ta tb ra rb t r Hd (tables_ok2 lg o d Hd) HG
+      exact (apply2_sound S lg o d ta tb ra rb t r Hd (tables_ok2 lg o d Hd)
                (IHa ta ra R1 Ha E1 E2) (IHb tb rb R2 Hb E3 E4) (DA1 _ eq_refl) (DB1 _ eq_refl) (DA2 _ eq_refl) (DB2 _ eq_refl) Hl Hg).
     - discriminate.
     - discriminate.
@@ -1628,7 +1708,10 @@ Qed.
 
 (* ============================================================ totality of the tables on typed arguments *)
 Definition kinds_of_shape (s : shape) : list string :=
-  match s with ShS => ["s"] | ShV => ["c"; "t"] | ShM => ["m"] end.
+  match s with ShS => ["s"] | ShV => ["c"] | ShM => ["m"] end.
+(* (before the repair 14cf28b a vector could also be a sympy Tuple, kind "t", and three (operator, kind)
+   combinations had to be excluded from totality: Laplace of a Tuple, Dot with a matrix, Dot_3d on
+   (column, Tuple)) *)
 
 Definition res_kind_ok (d : nat) (s' : shape) (T : tensor) : bool :=
   match kind_of d T with Some k => mem k (kinds_of_shape s') | None => false end.
@@ -1638,9 +1721,6 @@ Definition shapes3 := [ShS; ShV; ShM].
 (* for every argument shape the classical operator accepts, and every kind a lowered argument of
    that shape can have, the class TerminalExpr picks has a table (GenOk), made of generic atoms of
    that argument only, whose result has a kind of the classical result shape *)
-Definition tguard1 (o : gop1) (k : string) : bool :=
-  match o with OLaplace => negb (String.eqb k "t") | _ => true end.
-
 Definition tab_total1 (lg : bool) (o : gop1) (d : nat) : bool :=
   forallb (fun s =>
     match op1_shape o d s with
@@ -1653,19 +1733,13 @@ Definition tab_total1 (lg : bool) (o : gop1) (d : nat) : bool :=
             | None => true                               (* no such class: excluded by [supported] *)
             | Some tab =>
                 forallb (fun k =>
-                  if tguard1 o k then
-                    match assoc k tab with
-                    | Some (GenOk T) => tens_forallb (twf lg (gen_keys false k d)) T && res_kind_ok d s' T
-                    | _ => false
-                    end
-                  else true) (kinds_of_shape s)
+                  match assoc k tab with
+                  | Some (GenOk T) => tens_forallb (twf lg (gen_keys false k d)) T && res_kind_ok d s' T
+                  | _ => false
+                  end) (kinds_of_shape s)
             end
         end
     end) shapes3.
-
-Definition is_dot (o : gop2) : bool := match o with ODot => true | _ => false end.
-Definition tguard (o : gop2) (d : nat) (ka kb : string) : bool :=
-  guard2 o ka kb && negb (is_dot o && Nat.eqb d 3 && String.eqb ka "c" && String.eqb kb "t").
 
 Definition tab_total2 (lg : bool) (o : gop2) (d : nat) : bool :=
   forallb (fun s1 => forallb (fun s2 =>
@@ -1679,13 +1753,11 @@ Definition tab_total2 (lg : bool) (o : gop2) (d : nat) : bool :=
             | None => true
             | Some tab =>
                 forallb (fun ka => forallb (fun kb =>
-                  if tguard o d ka kb then
-                    match assoc (ka ++ kb) tab with
-                    | Some (GenOk T) =>
-                        tens_forallb (twf lg (gen_keys false ka d ++ gen_keys true kb d)%list) T && res_kind_ok d s' T
-                    | _ => false
-                    end
-                  else true) (kinds_of_shape s2)) (kinds_of_shape s1)
+                  match assoc (ka ++ kb) tab with
+                  | Some (GenOk T) =>
+                      tens_forallb (twf lg (gen_keys false ka d ++ gen_keys true kb d)%list) T && res_kind_ok d s' T
+                  | _ => false
+                  end) (kinds_of_shape s2)) (kinds_of_shape s1)
             end
         end
     end) shapes3) shapes3.
@@ -1736,17 +1808,17 @@ Proof. unfold mem. intros H. apply existsb_exists in H. destruct H as (x & Hx & 
 (* ------------------------------------------------------------ operators never fail on typed arguments *)
 Lemma apply1_total lg o d ta s s' :
   d = 2 \/ d = 3 -> op1_shape o d s = Some s' -> op_exists lg (op1_name o) d = true ->
-  kind_in d s ta -> (forall k, kind_of d ta = Some k -> tguard1 o k = true) -> tens_good lg ta ->
+  kind_in d s ta -> tens_good lg ta ->
   exists t, apply1 lg o d ta = Some t /\ kind_in d s' t /\ tens_good lg t.
 Proof.
-  intros Hd Hs Hex (k & Hk & Hin) Hg Hgood. destruct (d23 d Hd) as [Hd13 Hd1].
+  intros Hd Hs Hex (k & Hk & Hin) Hgood. destruct (d23 d Hd) as [Hd13 Hd1].
   pose proof (tables_total1 lg o d Hd) as Htab. unfold tab_total1 in Htab.
   rewrite forallb_forall in Htab. assert (Hs3 : In s shapes3) by (destruct s; simpl; auto).
   specialize (Htab s Hs3). rewrite Hs in Htab.
   unfold op_exists in Hex. unfold apply1, table_of.
   destruct (class_name lg (op1_name o) d) as [name|]; [|discriminate].
   destruct (assoc name tables) as [tab|]; [|discriminate].
-  rewrite forallb_forall in Htab. specialize (Htab k Hin). rewrite (Hg k Hk) in Htab. rewrite Hk.
+  rewrite forallb_forall in Htab. specialize (Htab k Hin). rewrite Hk.
   destruct (assoc k tab) as [[T|?|?]|]; try discriminate.
   apply andb_true_iff in Htab. destruct Htab as [Hwf Hres].
   apply kind_of_shape in Hk.
@@ -1771,11 +1843,10 @@ Qed.
 Lemma apply2_total lg o d ta tb s1 s2 s' :
   d = 2 \/ d = 3 -> op2_shape o d s1 s2 = Some s' -> op_exists lg (op2_name o) d = true ->
   kind_in d s1 ta -> kind_in d s2 tb ->
-  (forall ka kb, kind_of d ta = Some ka -> kind_of d tb = Some kb -> tguard o d ka kb = true) ->
   tens_good lg ta -> tens_good lg tb ->
   exists t, apply2 lg o d ta tb = Some t /\ kind_in d s' t /\ tens_good lg t.
 Proof.
-  intros Hd Hs Hex (ka & Hka & Hina) (kb & Hkb & Hinb) Hg Hga Hgb. destruct (d23 d Hd) as [Hd13 Hd1].
+  intros Hd Hs Hex (ka & Hka & Hina) (kb & Hkb & Hinb) Hga Hgb. destruct (d23 d Hd) as [Hd13 Hd1].
   pose proof (tables_total2 lg o d Hd) as Htab. unfold tab_total2 in Htab.
   rewrite forallb_forall in Htab. assert (Hs1 : In s1 shapes3) by (destruct s1; simpl; auto).
   specialize (Htab s1 Hs1). rewrite forallb_forall in Htab.
@@ -1784,7 +1855,7 @@ Proof.
   destruct (class_name lg (op2_name o) d) as [name|]; [|discriminate].
   destruct (assoc name tables) as [tab|]; [|discriminate].
   rewrite forallb_forall in Htab. specialize (Htab ka Hina). rewrite forallb_forall in Htab. specialize (Htab kb Hinb).
-  rewrite (Hg ka kb Hka Hkb) in Htab. rewrite Hka, Hkb.
+  rewrite Hka, Hkb.
   destruct (assoc (ka ++ kb) tab) as [[T|?|?]|]; try discriminate.
   apply andb_true_iff in Htab. destruct Htab as [Hwf Hres].
   apply kind_of_shape in Hka. apply kind_of_shape in Hkb.
@@ -1804,13 +1875,8 @@ Qed.
 (* ------------------------------------------------------------ arithmetic never fails on typed operands *)
 Definition ckind (s : shape) : string := match s with ShS => "s" | ShV => "c" | ShM => "m" end.
 
-Lemma kind_in_strict d s t : d <> 1 -> kind_in d s t -> not_vec t -> kind_of d t = Some (ckind s).
-Proof.
-  intros Hd (k & Hk & Hin) Hn. destruct s; simpl in Hin.
-  - destruct Hin as [<-|[]]. exact Hk.
-  - destruct Hin as [<-|[<-|[]]]; [exact Hk|]. apply kind_of_shape in Hk. inversion Hk; subst. contradiction.
-  - destruct Hin as [<-|[]]. exact Hk.
-Qed.
+Lemma kind_in_strict d s t : kind_in d s t -> kind_of d t = Some (ckind s).
+Proof. intros (k & Hk & Hin). destruct s; simpl in Hin; destruct Hin as [<-|[]]; exact Hk. Qed.
 
 Lemma strict_kind_in d s t : kind_of d t = Some (ckind s) -> kind_in d s t.
 Proof. intros H. exists (ckind s). split; auto. destruct s; simpl; auto. Qed.
@@ -1924,39 +1990,39 @@ Lemma shape_eqb_eq a b : shape_eqb a b = true -> a = b.
 Proof. destruct a, b; simpl; congruence. Qed.
 
 Definition TP lg d (e : gexpr) : Prop :=
-  forall s, shape_of d e = Some s -> leaves_ok lg d e = true -> regular lg d e = true ->
+  forall s, shape_of d e = Some s -> leaves_ok lg d e = true ->
   exists t, lower lg d e = Some t /\ kind_in d s t /\ tens_good lg t.
 
 Lemma operands_total lg d l : Forall (TP lg d) l -> forall ss,
-  sequence (map (shape_of d) l) = Some ss -> forallb (leaves_ok lg d) l = true -> forallb (regular lg d) l = true ->
+  sequence (map (shape_of d) l) = Some ss -> forallb (leaves_ok lg d) l = true ->
   exists ts, sequence (map (lower lg d) l) = Some ts /\ Forall2 (fun s t => kind_in d s t /\ tens_good lg t) ss ts.
 Proof.
-  induction 1 as [|x l Hx Hl IH]; simpl; intros ss HS HL HR.
+  induction 1 as [|x l Hx Hl IH]; simpl; intros ss HS HL.
   - inversion HS. exists []. auto.
   - destruct (shape_of d x) as [s|] eqn:Es; [|discriminate].
     destruct (sequence (map (shape_of d) l)) as [ss'|] eqn:Ess; [|discriminate]. inversion HS; subst.
-    apply andb_true_iff in HL. destruct HL as [L1 L2]. apply andb_true_iff in HR. destruct HR as [R1 R2].
-    destruct (Hx s Es L1 R1) as (t & -> & K & G). destruct (IH ss' eq_refl L2 R2) as (ts & -> & F).
+    apply andb_true_iff in HL. destruct HL as [L1 L2].
+    destruct (Hx s Es L1) as (t & -> & K & G). destruct (IH ss' eq_refl L2) as (ts & -> & F).
     exists (t :: ts). simpl. auto.
 Qed.
 
-Lemma strictify lg d ss ts : d <> 1 -> Forall2 (fun s t => kind_in d s t /\ tens_good lg t) ss ts -> Forall not_vec ts ->
+Lemma strictify lg d ss ts : Forall2 (fun s t => kind_in d s t /\ tens_good lg t) ss ts ->
   Forall2 (fun s t => kind_of d t = Some (ckind s) /\ tens_good lg t) ss ts.
-Proof.
-  intros Hd. induction 1 as [|s t ss ts [K G] _ IH]; intros HN; constructor; inversion HN; subst; auto.
-  split; auto. now apply kind_in_strict.
-Qed.
+Proof. induction 1 as [|s t ss ts [K G] _ IH]; constructor; auto. split; auto. now apply kind_in_strict. Qed.
 
 Lemma tpow_good lg x z : tgoodb lg x = true -> tgoodb lg (tpow x (tnum z 1)) = true.
 Proof. intros H. unfold tnum. simpl. destruct z; simpl; exact H. Qed.
 
+(* On the whole supported fragment, in dimension 2 and 3: lowering never fails and the value is a scalar
+   expression / a d x 1 column / a d x d matrix according to the type of the tree (full strength since the
+   repairs 14cf28b and 1e0454e: no guard besides [supported]). *)
 Theorem lower_total_shape lg d e s :
-  d = 2 \/ d = 3 -> shape_of d e = Some s -> leaves_ok lg d e = true -> regular lg d e = true ->
+  d = 2 \/ d = 3 -> shape_of d e = Some s -> leaves_ok lg d e = true ->
   exists t, lower lg d e = Some t /\ kind_in d s t /\ tens_good lg t.
 Proof.
   intros Hd. destruct (d23 d Hd) as [Hd13 Hd1]. revert s. change (TP lg d e).
   induction e as [p q|n|l i|n|n|n i|l IHl|l IHl|b x IHb IHx|f a IHa|o a IHa|o a b IHa IHb|l IHl|rr cc l IHl] using gexpr_ind';
-    intros s Hs Hl Hr.
+    intros s Hs Hl.
   - simpl in Hs. inversion Hs. eexists. split; [reflexivity|]. split; [apply (strict_kind_in d ShS)|].
     + simpl. now rewrite (proj2 (Nat.eqb_neq d 1) Hd1).
     + unfold tens_good, tens_forallb, tnum. simpl. destruct q; reflexivity.
@@ -1973,13 +2039,11 @@ Proof.
   - simpl in Hs. destruct (Nat.ltb i d); inversion Hs. eexists. split; [reflexivity|]. split; [apply (strict_kind_in d ShS)|reflexivity].
     simpl. now rewrite (proj2 (Nat.eqb_neq d 1) Hd1).
   - (* Add *)
-    rewrite shape_of_add in Hs. rewrite leaves_ok_add in Hl. rewrite regular_add in Hr.
-    apply andb_true_iff in Hr. destruct Hr as [R1 R2].
+    rewrite shape_of_add in Hs. rewrite leaves_ok_add in Hl.
     destruct (sequence (map (shape_of d) l)) as [[|s0 ss]|] eqn:Ess; try discriminate.
     destruct (forallb (shape_eqb s0) ss) eqn:Eall; inversion Hs; subst.
-    destruct (operands_total lg d l IHl _ Ess Hl R1) as (ts & Ets & HF).
-    pose proof (operands_not_vec lg d l ts R2 Ets) as HN.
-    pose proof (strictify lg d _ _ Hd1 HF HN) as HS.
+    destruct (operands_total lg d l IHl _ Ess Hl) as (ts & Ets & HF).
+    pose proof (strictify lg d _ _ HF) as HS.
     rewrite lower_add, Ets. destruct ts as [|t0 ts]; [inversion HS|].
     assert (HA : Forall (fun t => kind_of d t = Some (ckind s) /\ tens_good lg t) (t0 :: ts)).
     { inversion HS; subst. constructor; auto. clear - H4 Eall. revert ts H4. induction ss; intros ts H4; inversion H4; subst; constructor.
@@ -1988,22 +2052,19 @@ Proof.
     destruct (fold_add_total lg d s ts Hd t0 HA) as (t & Et & K & G).
     exists t. split; [exact Et|]. split; auto. now apply strict_kind_in.
   - (* Mul *)
-    rewrite shape_of_mul in Hs. rewrite leaves_ok_mul in Hl. rewrite regular_mul in Hr.
-    apply andb_true_iff in Hr. destruct Hr as [Hr _]. apply andb_true_iff in Hr. destruct Hr as [R1 R2].
+    rewrite shape_of_mul in Hs. rewrite leaves_ok_mul in Hl.
     destruct (sequence (map (shape_of d) l)) as [[|s0 ss]|] eqn:Ess; try discriminate.
     destruct (mres_comb s0 ss s Hs) as [HC ->].
-    destruct (operands_total lg d l IHl _ Ess Hl R1) as (ts & Ets & HF).
-    pose proof (operands_not_vec lg d l ts R2 Ets) as HN.
-    pose proof (strictify lg d _ _ Hd1 HF HN) as HS.
+    destruct (operands_total lg d l IHl _ Ess Hl) as (ts & Ets & HF).
+    pose proof (strictify lg d _ _ HF) as HS.
     rewrite lower_mul, Ets. destruct ts as [|t0 ts]; [inversion HS|]. inversion HS as [|? ? ? ? [K0 G0] HS']; subst.
     destruct (fold_mul_total lg d ts Hd ss t0 s0 HC K0 G0 HS') as (t & Et & K & G).
     exists t. split; [exact Et|]. split; auto. now apply strict_kind_in.
   - (* Pow, integer literal exponent *)
     cbn [leaves_ok] in Hl. apply andb_true_iff in Hl. destruct Hl as [L1 L2].
     destruct x as [z q| | | | | | | | | | | | |]; try discriminate. destruct q; try discriminate.
-    cbn [regular] in Hr. apply andb_true_iff in Hr. destruct Hr as [R1 _].
     cbn [shape_of] in Hs. destruct (shape_of d b) as [[| |]|] eqn:Eb; try discriminate. inversion Hs; subst.
-    destruct (IHb ShS Eb L1 R1) as (tb & Etb & Kb & Gb).
+    destruct (IHb ShS Eb L1) as (tb & Etb & Kb & Gb).
     cbn [lower]. rewrite Etb.
     assert (Ksc : kind_of d tb = Some "s").
     { destruct Kb as (k & K1 & [<-|[]]). exact K1. }
@@ -2015,23 +2076,63 @@ Proof.
   - discriminate.
   - (* unary operators *)
     cbn [leaves_ok] in Hl. apply andb_true_iff in Hl. destruct Hl as [L1 L2].
-    cbn [regular] in Hr. apply andb_true_iff in Hr. destruct Hr as [R1 R2].
     cbn [shape_of] in Hs. destruct (shape_of d a) as [sa|] eqn:Ea; [|discriminate].
-    destruct (IHa sa Ea L2 R1) as (ta & Eta & Ka & Ga).
+    destruct (IHa sa Ea L2) as (ta & Eta & Ka & Ga).
     cbn [lower]. rewrite Eta. eapply apply1_total; eauto.
-    intros k Hk. destruct o; try reflexivity. simpl. unfold lowered_kind in R2. now rewrite Eta, Hk in R2.
   - (* binary operators *)
     cbn [leaves_ok] in Hl. apply andb_true_iff in Hl. destruct Hl as [Hl L3]. apply andb_true_iff in Hl. destruct Hl as [L1 L2].
-    cbn [regular] in Hr. apply andb_true_iff in Hr. destruct Hr as [Hr R3]. apply andb_true_iff in Hr. destruct Hr as [R1 R2].
     cbn [shape_of] in Hs. destruct (shape_of d a) as [sa|] eqn:Ea; [|discriminate]. destruct (shape_of d b) as [sb|] eqn:Eb; [|discriminate].
-    destruct (IHa sa Ea L2 R1) as (ta & Eta & Ka & Ga). destruct (IHb sb Eb L3 R2) as (tb & Etb & Kb & Gb).
+    destruct (IHa sa Ea L2) as (ta & Eta & Ka & Ga). destruct (IHb sb Eb L3) as (tb & Etb & Kb & Gb).
     cbn [lower]. rewrite Eta, Etb. eapply apply2_total; eauto.
-    intros ka kb Hka Hkb. unfold tguard. destruct o; try reflexivity. simpl.
-    unfold lowered_kind in R3. rewrite Eta, Etb, Hka, Hkb in R3.
-    apply andb_true_iff in R3. destruct R3 as [R3 Q3]. apply andb_true_iff in R3. destruct R3 as [Q1 Q2].
-    apply negb_true_iff in Q1, Q2. rewrite Q1, Q2. simpl. exact Q3.
   - discriminate.
   - discriminate.
+Qed.
+
+(* consequently every supported tree is regular: the soundness theorem applies to the whole supported fragment *)
+Lemma filter_mat_count lg d l : forall ss ts,
+  sequence (map (lower lg d) l) = Some ts ->
+  Forall2 (fun s t => kind_of d t = Some (ckind s) /\ tens_good lg t) ss ts ->
+  length (filter (lowers_to_mat lg d) l) = count_ns ss.
+Proof.
+  induction l as [|x l IH]; simpl; intros ss ts E HF.
+  - inversion E. subst. inversion HF. reflexivity.
+  - destruct (lower lg d x) as [t|] eqn:Ex; [|discriminate]. destruct (sequence (map (lower lg d) l)) as [ts'|] eqn:El; [|discriminate].
+    inversion E. subst. inversion HF as [|s ? ss' ? [K G] HF']; subst.
+    unfold lowers_to_mat at 1. rewrite Ex. simpl. rewrite <- (IH ss' ts' eq_refl HF').
+    apply kind_of_shape in K. destruct s; simpl in K; inversion K; subst; reflexivity.
+Qed.
+
+Theorem supported_regular lg d e : d = 2 \/ d = 3 -> supported lg d e = true -> regular lg d e = true.
+Proof.
+  intros Hd Hsup. unfold supported, has_shape in Hsup. apply andb_true_iff in Hsup. destruct Hsup as [Hs Hl].
+  destruct (shape_of d e) as [s|] eqn:Es; [|discriminate]. clear Hs. revert s Es Hl.
+  induction e as [p q|n|l i|n|n|n i|l IHl|l IHl|b x IHb IHx|f a IHa|o a IHa|o a b IHa IHb|l IHl|rr cc l IHl] using gexpr_ind';
+    intros s Es Hl; try reflexivity; try discriminate.
+  - rewrite regular_add. rewrite shape_of_add in Es. rewrite leaves_ok_add in Hl.
+    destruct (sequence (map (shape_of d) l)) as [ss|] eqn:Ess; [|discriminate]. clear Es.
+    revert ss Ess Hl. induction IHl as [|x l Hx Hl' IH]; simpl; intros ss Ess Hl; auto.
+    destruct (shape_of d x) as [sx|] eqn:Ex; [|discriminate]. destruct (sequence (map (shape_of d) l)) as [ss'|]; [|discriminate].
+    apply andb_true_iff in Hl. destruct Hl as [L1 L2]. rewrite (Hx sx eq_refl L1). simpl. eapply IH; eauto.
+  - rewrite regular_mul. rewrite shape_of_mul in Es. rewrite leaves_ok_mul in Hl.
+    destruct (sequence (map (shape_of d) l)) as [[|s0 ss]|] eqn:Ess; try discriminate.
+    destruct (mres_comb s0 ss s Es) as [HC _].
+    apply andb_true_iff. split.
+    + clear Es HC. revert Ess Hl. generalize (s0 :: ss). induction IHl as [|x l Hx Hl' IH]; simpl; intros ss' Ess Hl; auto.
+      destruct (shape_of d x) as [sx|] eqn:Ex; [|discriminate]. destruct (sequence (map (shape_of d) l)) as [ss''|]; [|discriminate].
+      apply andb_true_iff in Hl. destruct Hl as [L1 L2]. rewrite (Hx sx eq_refl L1). simpl. eapply IH; eauto.
+    + assert (HT : Forall (TP lg d) l).
+      { apply Forall_forall. intros x _ sx Ex Lx. now apply lower_total_shape. }
+      destruct (operands_total lg d l HT _ Ess Hl) as (ts & Ets & HF).
+      rewrite (filter_mat_count lg d l _ ts Ets (strictify lg d _ _ HF)).
+      apply Nat.leb_le. exact HC.
+  - cbn [regular]. cbn [leaves_ok] in Hl. apply andb_true_iff in Hl. destruct Hl as [L1 L2].
+    destruct x; try discriminate. cbn [shape_of] in Es. destruct (shape_of d b) as [sb|] eqn:Eb; [|discriminate].
+    rewrite (IHb sb eq_refl L1). reflexivity.
+  - cbn [regular]. cbn [leaves_ok] in Hl. apply andb_true_iff in Hl. destruct Hl as [L1 L2].
+    cbn [shape_of] in Es. destruct (shape_of d a) as [sa|] eqn:Ea; [|discriminate]. exact (IHa sa eq_refl L2).
+  - cbn [regular]. cbn [leaves_ok] in Hl. apply andb_true_iff in Hl. destruct Hl as [Hl L3]. apply andb_true_iff in Hl. destruct Hl as [L1 L2].
+    cbn [shape_of] in Es. destruct (shape_of d a) as [sa|] eqn:Ea; [|discriminate]. destruct (shape_of d b) as [sb|] eqn:Eb; [|discriminate].
+    rewrite (IHa sa eq_refl L2), (IHb sb eq_refl L3). reflexivity.
 Qed.
 End P7.
 Export P7.
@@ -2041,7 +2142,7 @@ Export P7.
 Module P8.
 (* the extraction itself: every class the dispatch can name for a supported operator is present, no
    fail-closed marker, the registries contain the modelled operators, the naming scheme is the modelled one *)
-Definition expected_classes : list string := ["Grad_1d"; "LogicalGrad_1d"; "Grad_2d"; "LogicalGrad_2d"; "Grad_3d"; "LogicalGrad_3d"; "Curl_2d"; "LogicalCurl_2d"; "Curl_3d"; "LogicalCurl_3d"; "Rot_2d"; "LogicalRot_2d"; "Div_1d"; "LogicalDiv_1d"; "Div_2d"; "LogicalDiv_2d"; "Div_3d"; "LogicalDiv_3d"; "Laplace_1d"; "LogicalLaplace_1d"; "Laplace_2d"; "LogicalLaplace_2d"; "Laplace_3d"; "LogicalLaplace_3d"; "Hessian_1d"; "LogicalHessian_1d"; "Hessian_2d"; "LogicalHessian_2d"; "Hessian_3d"; "LogicalHessian_3d"; "Bracket_2d"; "LogicalBracket_2d"; "Dot_1d"; "Dot_2d"; "Dot_3d"; "Cross_2d"; "Cross_3d"; "Inner_2d"; "Inner_3d"].
+Definition expected_classes : list string := ["Grad_1d"; "LogicalGrad_1d"; "Grad_2d"; "LogicalGrad_2d"; "Grad_3d"; "LogicalGrad_3d"; "Curl_2d"; "LogicalCurl_2d"; "Curl_3d"; "LogicalCurl_3d"; "Rot_2d"; "LogicalRot_2d"; "Div_1d"; "LogicalDiv_1d"; "Div_2d"; "LogicalDiv_2d"; "Div_3d"; "LogicalDiv_3d"; "Laplace_1d"; "LogicalLaplace_1d"; "Laplace_2d"; "LogicalLaplace_2d"; "Laplace_3d"; "LogicalLaplace_3d"; "Hessian_1d"; "LogicalHessian_1d"; "Hessian_2d"; "LogicalHessian_2d"; "Hessian_3d"; "LogicalHessian_3d"; "Bracket_2d"; "LogicalBracket_2d"; "Dot_1d"; "Dot_2d"; "Dot_3d"; "Cross_2d"; "Cross_3d"; "Inner_1d"; "Inner_2d"; "Inner_3d"].
 Lemma classes_present : forallb (fun n => match assoc n tables with Some _ => true | None => false end) expected_classes = true.
 Proof. vm_compute. reflexivity. Qed.
 Lemma no_markers : forallb (fun nt => forallb (fun kr => match snd kr with GenBad _ => false | _ => true end) (snd nt)) tables = true.
@@ -2054,22 +2155,32 @@ Lemma dispatch_scheme_ok : (fmt_logical, fmt_physical, fmt_generic) = ("Logical{
 Proof. reflexivity. Qed.
 
 (* ============================================================ corollaries: shape and totality (d = 2, 3) *)
-Theorem lower_total_partial lg d e :
-  d = 2 \/ d = 3 -> supported lg d e = true -> regular lg d e = true -> exists t, lower lg d e = Some t.
+(* full strength on the supported fragment, dimensions 2 and 3 (before the repairs 14cf28b / 1e0454e these
+   needed the guard [regular] and were refuted without it: f*cross(F,G), cross(F,G)+curl(H),
+   dot(B, cross(F,G)) raised, 2*cross(F,G) was a 6-tuple, dot(grad(F), G) a scalar) *)
+Theorem lower_total lg d e :
+  d = 2 \/ d = 3 -> supported lg d e = true -> exists t, lower lg d e = Some t.
 Proof.
-  intros Hd Hs Hr. unfold supported, has_shape in Hs. apply andb_true_iff in Hs. destruct Hs as [H1 H2].
+  intros Hd Hs. unfold supported, has_shape in Hs. apply andb_true_iff in Hs. destruct Hs as [H1 H2].
   destruct (shape_of d e) as [s|] eqn:Es; [|discriminate].
-  destruct (lower_total_shape lg d e s Hd Es H2 Hr) as (t & E & _). eauto.
+  destruct (lower_total_shape lg d e s Hd Es H2) as (t & E & _). eauto.
 Qed.
 
-(* the lowered value has the object shape of its type: a scalar expression / a d x 1 column or a
-   d-tuple / a d x d matrix *)
-Theorem lower_shape_partial lg d e s t :
-  d = 2 \/ d = 3 -> shape_of d e = Some s -> leaves_ok lg d e = true -> regular lg d e = true ->
+(* the lowered value has the object shape of its type: a scalar expression / a d x 1 column / a d x d matrix *)
+Theorem lower_shape lg d e s t :
+  d = 2 \/ d = 3 -> shape_of d e = Some s -> leaves_ok lg d e = true ->
   lower lg d e = Some t -> kind_in d s t.
 Proof.
-  intros Hd Es Hl Hr Ht. destruct (lower_total_shape lg d e s Hd Es Hl Hr) as (t' & E & K & _).
+  intros Hd Es Hl Ht. destruct (lower_total_shape lg d e s Hd Es Hl) as (t' & E & K & _).
   rewrite Ht in E. inversion E. now subst.
+Qed.
+
+(* soundness on the whole supported fragment, dimensions 2 and 3: only the definedness hypothesis remains *)
+Theorem lower_sound_supported (S : dfield) lg d e t r :
+  d = 2 \/ d = 3 -> supported lg d e = true -> gdef S lg d e ->
+  lower lg d e = Some t -> gden lg d e = Some r -> P1.tens_eq S t r.
+Proof.
+  intros Hd Hs. apply lower_sound_partial; [destruct Hd; lia|]. now apply supported_regular.
 Qed.
 
 (* and the mathematical shape of the classical definition (any dimension; part of lower_sound_partial) *)
@@ -2096,11 +2207,12 @@ Proof.
   destruct (assoc name tables); [discriminate|reflexivity].
 Qed.
 
-(* no Outer_kd / Convect_kd class in any dimension; Rot and Bracket only in 2-D; Curl, Cross, Inner not in 1-D *)
+(* no Outer_kd / Convect_kd class in any dimension; Rot and Bracket only in 2-D; Curl, Cross not in 1-D
+   (Inner_1d exists since d70b390) *)
 Lemma absent_classes lg d : 1 <= d <= 3 ->
   op_exists lg "Outer" d = false /\ op_exists lg "Convect" d = false /\
   (d <> 2 -> op_exists lg "Rot" d = false /\ op_exists lg "Bracket" d = false) /\
-  (d = 1 -> op_exists lg "Curl" d = false /\ op_exists lg "Cross" d = false /\ op_exists lg "Inner" d = false).
+  (d = 1 -> op_exists lg "Curl" d = false /\ op_exists lg "Cross" d = false).
 Proof.
   intros Hd. destruct (d123 d Hd) as [->|[->| ->]]; destruct lg; repeat split; intros; try reflexivity; try lia.
 Qed.
@@ -2119,61 +2231,44 @@ Proof.
   intros Hd. apply lower_none_op2. change (op2_name OBracket) with "Bracket". assert (H13 : 1 <= d <= 3) by lia.
   destruct (absent_classes lg d H13) as (_ & _ & H & _). assert (H2 : d <> 2) by lia. destruct (H H2) as [_ H3]. exact H3.
 Qed.
-Lemma lower_none_1d lg a b : lower lg 1 (GOp1 OCurl a) = None /\ lower lg 1 (GOp2 OCross a b) = None /\ lower lg 1 (GOp2 OInner a b) = None.
+Lemma lower_none_1d lg a b : lower lg 1 (GOp1 OCurl a) = None /\ lower lg 1 (GOp2 OCross a b) = None.
 Proof.
-  assert (H13 : 1 <= 1 <= 3) by lia. destruct (absent_classes lg 1 H13) as (_ & _ & _ & H). destruct (H eq_refl) as (H1 & H2 & H3).
-  split; [|split].
+  assert (H13 : 1 <= 1 <= 3) by lia. destruct (absent_classes lg 1 H13) as (_ & _ & _ & H). destruct (H eq_refl) as (H1 & H2).
+  split.
   - apply lower_none_op1. exact H1.
   - apply lower_none_op2. exact H2.
-  - apply lower_none_op2. exact H3.
 Qed.
 
-(* ============================================================ the unguarded statements are false *)
-(* (the full statements, for reference:
-      lower_sound : forall S lg d e t r, 1 <= d <= 3 -> gdef S lg d e ->
-                    lower lg d e = Some t -> gden lg d e = Some r -> tens_eq S t r
-      lower_total : forall lg d e, 1 <= d <= 3 -> supported lg d e = true -> exists t, lower lg d e = Some t
-   both fail on the faithful model, on the two confirmed defects of the code) *)
+(* ============================================================ dimension 1: totality is still false *)
+(* 1-D (known finding C01-1d-vector-as-scalar): Grad_1d of a scalar is a bare scalar expression while a
+   vector function is a 1 x 1 matrix: F + grad(f) is supported but the sum raises TypeError.
+   (Historical note: before the repairs 14cf28b and 1e0454e the unguarded soundness and totality statements
+   were also refuted in 2-D / 3-D - lower_sound_refuted_dot_matrix, lower_sound_refuted_cross_tuple,
+   lower_total_refuted with f*cross(F,G), cross(F,G)+curl(H), dot(B,cross(F,G)), dot_2d_matrix_arm_refuted;
+   those witnesses now lower correctly, see repaired_witnesses below.) *)
 Definition gF := GVF "F". Definition gG := GVF "G". Definition gH := GVF "H". Definition gB := GVF "B".
 Definition gf := GSF "f".
 
-(* dot(grad(F), G) is constructed as Dot(G, Grad(F)); lowered to the SCALAR "first row of grad F . G" *)
-Theorem lower_sound_refuted_dot_matrix :
-  exists t r, supported false 2 (GOp2 ODot gG (GOp1 OGrad gF)) = true /\
-              lower false 2 (GOp2 ODot gG (GOp1 OGrad gF)) = Some t /\
-              gden false 2 (GOp2 ODot gG (GOp1 OGrad gF)) = Some r /\
-              cshape t = (1, 1) /\ cshape r = (2, 1) /\ regular false 2 (GOp2 ODot gG (GOp1 OGrad gF)) = false.
-Proof. eexists. eexists. repeat split; vm_compute; reflexivity. Qed.
-
-(* 3-D: 2*cross(F,G) is a 6-tuple (Cross_3d returns a Tuple; int * Tuple repeats it) *)
-Theorem lower_sound_refuted_cross_tuple :
-  exists t r, supported false 3 (GMul [GNum 2 1; GOp2 OCross gF gG]) = true /\
-              lower false 3 (GMul [GNum 2 1; GOp2 OCross gF gG]) = Some t /\
-              gden false 3 (GMul [GNum 2 1; GOp2 OCross gF gG]) = Some r /\
-              cshape t = (6, 1) /\ cshape r = (3, 1) /\ regular false 3 (GMul [GNum 2 1; GOp2 OCross gF gG]) = false.
-Proof. eexists. eexists. repeat split; vm_compute; reflexivity. Qed.
-
-(* consequently no differential field can make them equal *)
-Corollary lower_sound_refuted : forall S : dfield, exists lg d e t r,
-  1 <= d <= 3 /\ supported lg d e = true /\ lower lg d e = Some t /\ gden lg d e = Some r /\ ~ P1.tens_eq S t r.
-Proof.
-  intros S. destruct lower_sound_refuted_dot_matrix as (t & r & H1 & H2 & H3 & H4 & H5 & _).
-  exists false, 2, (GOp2 ODot gG (GOp1 OGrad gF)), t, r. repeat split; auto; try lia.
-  intros (C & _). rewrite H4, H5 in C. discriminate.
-Qed.
-
-(* 3-D: f*cross(F,G), cross(F,G)+curl(H) and dot(B, cross(F,G)) are supported but lowering fails *)
-Theorem lower_total_refuted :
-  supported false 3 (GMul [gf; GOp2 OCross gF gG]) = true /\ lower false 3 (GMul [gf; GOp2 OCross gF gG]) = None /\
-  supported false 3 (GAdd [GOp2 OCross gF gG; GOp1 OCurl gH]) = true /\ lower false 3 (GAdd [GOp2 OCross gF gG; GOp1 OCurl gH]) = None /\
-  supported false 3 (GOp2 ODot gB (GOp2 OCross gF gG)) = true /\ lower false 3 (GOp2 ODot gB (GOp2 OCross gF gG)) = None.
+Theorem lower_total_1d_refuted :
+  supported true 1 (GAdd [GOp1 OGrad gf; gF]) = true /\ lower true 1 (GAdd [GOp1 OGrad gf; gF]) = None /\
+  supported false 1 (GOp1 ODiv (GMul [gf; GOp1 OGrad gf])) = true /\ lower false 1 (GOp1 ODiv (GMul [gf; GOp1 OGrad gf])) = None.
 Proof. repeat split; vm_compute; reflexivity. Qed.
 
-(* at the level of the extracted table: Dot_2d on (matrix, column) is a scalar *)
-Lemma dot_2d_matrix_arm_refuted :
-  exists x, table_of "Dot_2d" "mc" = Some (GenOk (Sc x)) /\
-  exists v, cl2 false ODot 2 (wrap FMat 2 (gen_flat false "m" 2)) (wrap FVec 2 (gen_flat true "c" 2)) = Some (Vec v) /\ length v = 2.
-Proof. eexists. split; [vm_compute; reflexivity|]. eexists. split; vm_compute; reflexivity. Qed.
+(* the former defect witnesses: supported, lowered, and equal to the classical value (checked here by the
+   verified checker on the model; in general by lower_sound_supported) *)
+Definition former_witnesses : list (nat * gexpr) :=
+  [(2, GOp2 ODot gG (GOp1 OGrad gF)); (3, GOp2 ODot gG (GOp1 OGrad gF));
+   (3, GMul [GNum 2 1; GOp2 OCross gF gG]); (3, GMul [gf; GOp2 OCross gF gG]);
+   (3, GAdd [GOp2 OCross gF gG; GOp1 OCurl gH]); (3, GOp2 ODot gB (GOp2 OCross gF gG));
+   (3, GAdd [GOp1 OLaplace (GOp2 OCross gF gG); gF])].
+
+Lemma repaired_witnesses :
+  forallb (fun de => supported false (fst de) (snd de) &&
+                     match lower false (fst de) (snd de), gden false (fst de) (snd de) with
+                     | Some t, Some r => teqv t r
+                     | _, _ => false
+                     end) former_witnesses = true.
+Proof. vm_compute. reflexivity. Qed.
 
 (* ============================================================ non-vacuity *)
 (* a concrete 3-D tree with nested operators: div(f grad g) + dot(curl F, curl G) + 2 laplace(f);
